@@ -22,11 +22,13 @@ import (
 // treeVec is one vector of HybridLogGen.tla.
 type treeVec struct {
 	Thr   int     `json:"thr"`
-	Ops   [][]int `json:"ops"`   // [1,h,k] derive, [2,h,level,m] log, [3,h] WithGroup
+	Ops   [][]int `json:"ops"`   // [1,h,k] derive, [4,h,level,size,c1..cn] new record, [5,h,r] record r again, [3,h] WithGroup
 	Attrs [][]int `json:"attrs"` // predicted attribute ids of handler i+1
 	Out   []struct {
 		H     int   `json:"h"`
 		Lv    int   `json:"lv"`
+		R     int   `json:"r"` // number of the record (order of creation)
+		N     int   `json:"n"` // how many of attrs are the record's own
 		Err   int   `json:"err"`
 		Attrs []int `json:"attrs"`
 	} `json:"out"` // predicted line of every log step of the path
@@ -62,8 +64,14 @@ func opsKey(ops [][]int) string {
 		switch o[0] {
 		case 1:
 			fmt.Fprintf(&b, "D%d+%d", o[1], o[2])
-		case 2:
-			fmt.Fprintf(&b, "L%d@%d/%d", o[1], o[2], o[3])
+		case 4:
+			fmt.Fprintf(&b, "L%d@%d", o[1], o[2])
+			if o[3] > 0 {
+				fmt.Fprintf(&b, "~%d", sizeTable[o[3]])
+			}
+			fmt.Fprintf(&b, "/%v", o[4:])
+		case 5:
+			fmt.Fprintf(&b, "R%d<-rec%d", o[1], o[2])
 		case 3:
 			fmt.Fprintf(&b, "G%d", o[1])
 		}
@@ -71,7 +79,7 @@ func opsKey(ops [][]int) string {
 	return b.String()
 }
 
-var recSizes = [...]int{0, 1, 2, 6, 1, 3}
+var recSizes = [...]int{0, 1, 2, 6, 1, 3, 8, 7}
 
 // replayOne replays one vector on a fresh handler tree.
 func replayOne(res *vh.Result, st *treeStats, no int, raw []byte, v *treeVec, salt uint64) error {
@@ -113,49 +121,73 @@ func replayOne(res *vh.Result, st *treeStats, no int, raw []byte, v *treeVec, sa
 	ctr := int(salt % 1000)
 	nlog := 0
 
-	// logOnce handles one record through handler h and compares the line.
-	logOnce := func(h, lv int, recIDs []int, wantErr bool, what string) {
+	// A record the "caller" built and keeps: the value is handed to Handle as
+	// it is, every time; the reference works on fresh, equal records.
+	type liveRec struct {
+		rs  recordSpec
+		val slog.Record
+		ids []int
+	}
+	mkRec := func(lv int, ids []int, sz int, calls []int) liveRec {
 		ctr++
-		rs := recordSpec{
-			level: slog.Level(lv),
-			msg:   messages[ctr%len(messages)],
-			zeroT: ctr%3 == 0,
-			pc:    ctr%2 == 0,
-			attrs: concretise(recIDs, salt, attrTable),
-		}
+		attrs, msg := enlarge(sz, ids, concretise(ids, salt, attrTable), messages[ctr%len(messages)])
+		rs := recordSpec{level: slog.Level(lv), msg: msg, zeroT: ctr%3 == 0, pc: ctr%2 == 0, attrs: attrs, calls: calls}
+		return liveRec{rs: rs, val: rs.build(nil), ids: ids}
+	}
+	// handle gives the record value to handler h and compares the line.
+	handle := func(h int, lr liveRec, wantErr bool, what string) {
 		w.reset()
 		var herr error
-		pv, panicked := vh.Try(func() { herr = hs[h].Handle(ctx, rs.build(nil)) })
+		pv, panicked := vh.Try(func() { herr = hs[h].Handle(ctx, lr.val) })
 		st.handles.Add(1)
-		wantMsg, rerr := ref.line(rs, accC[h])
+		wantMsg, rerr := ref.line(lr.rs, accC[h])
 		if rerr != nil {
 			panic(rerr) // harness trouble, reported as exit != 0
 		}
-		key := fmt.Sprintf("%s %s h=%d level=%d rec=%v", base, what, h, lv, recIDs)
+		lv, recIDs := int(lr.rs.level), lr.ids
+		mism := func(w2 string, det map[string]any) {
+			res.Mismatch(fmt.Sprintf("%s %s h=%d level=%d rec=%v", base, what, h, lv, recIDs), w2, det)
+		}
 		d := func(problem string) map[string]any {
-			return detail(map[string]any{"handler": h, "level": lv, "record_attr_ids": recIDs,
-				"handler_attr_ids": v.Attrs[h-1], "message_text": rs.msg, "got_output": string(w.buf),
-				"got_writes": w.writes, "want_severity": severityName(wantErr), "want_message": wantMsg,
+			return detail(map[string]any{"handler": h, "level": lv, "record_attr_ids": recIDs, "record_addattrs_calls": lr.rs.calls,
+				"handler_attr_ids": v.Attrs[h-1], "message_text": clipStr(lr.rs.msg), "got_output": clipStr(string(w.buf)),
+				"got_writes": w.writes, "want_severity": severityName(wantErr), "want_message": clipStr(wantMsg),
 				"problem": problem})
 		}
 		switch {
 		case panicked:
-			res.Mismatch(key, fmt.Sprintf("Handle panicked: %v", pv), d("panic"))
+			mism(fmt.Sprintf("Handle panicked: %v", pv), d("panic"))
 			return
 		case herr != nil:
-			res.Mismatch(key, "Handle returned an error: "+herr.Error(), d("error"))
+			mism("Handle returned an error: "+herr.Error(), d("error"))
 			return
 		}
 		lines, rest := splitLines(w.buf)
 		if len(lines) != 1 || len(rest) != 0 {
 			p := fmt.Sprintf("one record produced %d complete line(s) and %d trailing byte(s)", len(lines), len(rest))
-			res.Mismatch(key, p, d(p))
+			mism(p, d(p))
 			return
 		}
 		if p := checkLine(lines[0], wantErr, wantMsg); p != "" {
-			res.Mismatch(key, p, d(p))
+			mism(p, d(p))
 		}
 	}
+	// logOnce builds a record (sometimes with several AddAttrs calls, so that
+	// the slice behind its first five attributes has spare capacity), handles
+	// it through h and, every so often, hands the same value to the next
+	// handler as well, as a caller fanning a record out would.
+	logOnce := func(h, lv int, recIDs []int, wantErr bool, what string) {
+		var calls []int
+		if m := len(recIDs); m >= 3 && ctr%2 == 0 {
+			calls = []int{m - 2, 1, 1}
+		}
+		lr := mkRec(lv, recIDs, 0, calls)
+		handle(h, lr, wantErr, what)
+		if (allLevels && ctr%3 == 0) || ctr%8 == 0 {
+			handle(h%(len(hs)-1)+1, lr, wantErr, what+" (same record value again)")
+		}
+	}
+	var live []liveRec
 
 	// observe logs one record through the handlers a step may have affected
 	// (on long paths: the handler just used, its parent, the newest one and a
@@ -220,21 +252,40 @@ func replayOne(res *vh.Result, st *treeStats, no int, raw []byte, v *treeVec, sa
 			}
 			hs = append(hs, child)
 			accC = append(accC, concretise(ids, salt, attrTable))
-		case 2:
-			if nout >= len(v.Out) {
+		case 4, 5:
+			if nout >= len(v.Out) || len(op) < 3 {
 				return fmt.Errorf("vector %d: out too short", no)
 			}
 			pred := v.Out[nout]
 			nout++
-			h, lv, m := op[1], op[2], op[3]
-			if pred.H != h || pred.Lv != lv || len(pred.Attrs) < m {
+			h := op[1]
+			if pred.H != h || h >= len(hs) || len(pred.Attrs) < pred.N {
 				return fmt.Errorf("vector %d: out does not match ops", no)
 			}
 			// The specification's line: the record's own ids, then the handler's.
-			if fmt.Sprint(pred.Attrs[m:]) != fmt.Sprint(v.Attrs[h-1]) {
+			if fmt.Sprint(pred.Attrs[pred.N:]) != fmt.Sprint(v.Attrs[h-1]) {
 				return fmt.Errorf("vector %d: predicted line is not rec ++ attrs[h]", no)
 			}
-			logOnce(h, lv, pred.Attrs[:m], pred.Err == 1, fmt.Sprintf("step %d", i+1))
+			if op[0] == 4 {
+				if len(op) < 5 || pred.Lv != op[2] || pred.R != len(live)+1 {
+					return fmt.Errorf("vector %d: bad new-record op %v", no, op)
+				}
+				sum := 0
+				for _, c := range op[4:] {
+					sum += c
+				}
+				if sum != pred.N || op[3] < 0 || op[3] >= len(sizeTable) {
+					return fmt.Errorf("vector %d: record shape %v does not give %d attributes", no, op[4:], pred.N)
+				}
+				live = append(live, mkRec(op[2], pred.Attrs[:pred.N], op[3], op[4:]))
+				handle(h, live[len(live)-1], pred.Err == 1, fmt.Sprintf("step %d", i+1))
+			} else {
+				r := op[2]
+				if r < 1 || r > len(live) || pred.R != r {
+					return fmt.Errorf("vector %d: bad re-handle op %v", no, op)
+				}
+				handle(h, live[r-1], pred.Err == 1, fmt.Sprintf("step %d (record %d again)", i+1, r))
+			}
 		case 3:
 			h := op[1]
 			var g slog.Handler
@@ -434,3 +485,10 @@ func replayTree(args []string) error {
 // hangLimit is how long one vector (a few dozen sequential calls, normally
 // well under a millisecond) may take before the watchdog steps in.
 const hangLimit = 20 * time.Second
+
+func clipStr(s string) string {
+	if len(s) > 3000 {
+		return s[:1500] + fmt.Sprintf(" ...(%d bytes)... ", len(s)) + s[len(s)-1000:]
+	}
+	return s
+}
